@@ -137,7 +137,8 @@ def exchange(rq, wk, ap, send_fail_at=None):
     calls = []
     app = build_app(ap, chunks, calls)
     cfg, w = worker_for(wk["kind"], wk, app)
-    r = drv.serve(wk["kind"], cfg, [request_bytes(rq)], app, worker=w, send_fail_at=send_fail_at)
+    extra = b"Expect: 100-continue\r\n" if ap.get("expect") else b""
+    r = drv.serve(wk["kind"], cfg, [request_bytes(rq, extra=extra)], app, worker=w, send_fail_at=send_fail_at)
     produced = b"".join(chunks)
     if ap["prod"] in ("file", "filenofd"):
         produced = produced[ap.get("off", 0):]
@@ -268,6 +269,8 @@ def c02(ctx):
         elif x < 0.3:
             # an earlier start_response call (own status / Content-Length) is replaced with exc_info before any output
             ap["first"] = [rng.choice([200, 201, 404]), rng.choice([NOCL, 0, 7, 100])]
+        if rng.random() < 0.1:
+            ap["expect"] = True        # the server answers "100 Continue" first; still exactly one final response
         t, aw, res = exchange(rq, wk, ap)
         traces.append(t)
         metas.append({"src": "rand", "rq": rq, "wk": wk, "app": ap})
